@@ -315,13 +315,17 @@ def _run_base(ctx):
     if comps:
         cpr = comps[0]
         gen = cpr.value.generators[0]
-        ok = dotted(gen.iter) == hv and not gen.ifs
+        # in place (handlers = [... for ... in handlers], under base_url != '/') or from a route table (handlers = [(prefix + p, h, params) for p, h in routes])
+        in_place = dotted(gen.iter) == hv
+        table = isinstance(gen.iter, ast.Name) and any(k == 'assign' and isinstance(v, (ast.List, ast.Tuple)) for v, k, st_ in local_defs(ma).get(gen.iter.id, []))
+        ok = (in_place or table) and not gen.ifs
         guards = cond_guards(g, cpr)
         mdefs = local_defs(ma)
         # the base URL: the parameter, or the local popped from the params under the key 'base_url'
         base_names = {'base_url'} | {nm for nm, ds in mdefs.items() for v, k, st_ in ds
                                      if any(isinstance(x, ast.Constant) and x.value == 'base_url' for x in ast.walk(v))}
-        ok = ok and any(pol and (base_names & names_in(t)) for t, pol in guards)
+        if in_place:
+            ok = ok and any(pol and (base_names & names_in(t)) for t, pol in guards)
         elt = cpr.value.elt
         # the first element of each re-created route is <prefix> + <old pattern>: the prefix is a local derived from the base URL
         prefix_names = {nm for nm, ds in mdefs.items() for v, k, st_ in ds if k == 'assign' and (base_names & names_in(v))} | base_names
